@@ -1,6 +1,7 @@
 package main
 
 import (
+	"math"
 	"errors"
 	"fmt"
 	"sort"
@@ -144,10 +145,11 @@ func copyDefs(s []int, start, length int) (clampStart, window []int) {
 		st = 0
 	}
 	for i, v := range s {
-		if i >= st && (length < 0 || i < st+length) {
+		if i >= st && (length < 0 || i-st < length) {
 			clampStart = append(clampStart, v)
 		}
-		if i >= start && (length < 0 || i < start+length) {
+		// window reading for a negative start: positions start..start+length-1 intersected with the slice
+		if i >= start && (length < 0 || (start >= 0 && i-start < length) || (start < 0 && length > -(start+1) && i <= length+start-1+0)) {
 			window = append(window, v)
 		}
 	}
@@ -180,12 +182,13 @@ const (
 	dCap0
 	dCap1
 	dLarge
+	dStale // a reused destination that still holds the previous result (non-zero length)
 	dS1
 	dS2
 )
 
-var layoutName = [...]string{"nil", "fresh-cap0", "fresh-cap1", "fresh-cap16", "s1[:0]", "s2[:0]"}
-var layoutExpr = [...]string{"[]int(nil)", "make([]int, 0)", "make([]int, 0, 1)", "make([]int, 0, 16)", "s1[:0]", "s2[:0]"}
+var layoutName = [...]string{"nil", "fresh-cap0", "fresh-cap1", "fresh-cap16", "reused-with-stale-content", "s1[:0]", "s2[:0]"}
+var layoutExpr = [...]string{"[]int(nil)", "make([]int, 0)", "make([]int, 0, 1)", "make([]int, 0, 16)", "append(make([]int, 0, 8), 7, 8, 9)", "s1[:0]", "s2[:0]"}
 
 func mkDst(l layout, s1, s2 []int) []int {
 	switch l {
@@ -197,6 +200,8 @@ func mkDst(l layout, s1, s2 []int) []int {
 		return make([]int, 0, 1)
 	case dLarge:
 		return make([]int, 0, 16)
+	case dStale:
+		return append(make([]int, 0, 8), 7, 8, 9)
 	case dS1:
 		return s1[:0]
 	default:
@@ -516,6 +521,16 @@ func (c *ctx) equalOps(o1 []int, S2 [][]int, maxL2 int) {
 	}
 }
 
+// argValues: the small range around the slice plus the extremes of int ("oversized" arguments:
+// arithmetic on them must not wrap around).
+func argValues(lo, hi int) []int {
+	var out []int
+	for v := lo; v <= hi; v++ {
+		out = append(out, v)
+	}
+	return append(out, math.MaxInt, math.MaxInt-1, math.MaxInt-2, math.MaxInt/2+1, math.MaxInt32, math.MinInt, math.MinInt+1)
+}
+
 func argClass(name string, v, n int) string {
 	switch {
 	case v < 0:
@@ -576,8 +591,8 @@ func (c *ctx) indexOps(o1 []int) {
 			c.r.Violation("Index|input-modified|"+class, "an Index-family function changed its operand", cs, "")
 		}
 	}
-	for a := -2; a <= n+2; a++ {
-		for b := -2; b <= n+2; b++ {
+	for _, a := range argValues(-2, n+2) {
+		for _, b := range argValues(-2, n+2) {
 			outside := a < 0 || a > n || b < 0 || b > n
 			// ---- SubSlice(s, start=a, end=b)
 			{
@@ -730,7 +745,7 @@ var errInjected = errors.New("injected")
 
 func (c *ctx) chunkOps(o1 []int) {
 	n := len(o1)
-	for size := -1; size <= n+2; size++ {
+	for _, size := range argValues(-1, n+2) {
 		class := "size>=1"
 		if size < 1 {
 			class = "size<=0"
@@ -738,7 +753,10 @@ func (c *ctx) chunkOps(o1 []int) {
 		cs := func() map[string]any { return map[string]any{"s": lit(o1), "chunkSize": size} }
 		expPieces := 0
 		if size >= 1 {
-			expPieces = (n + size - 1) / size
+			expPieces = n / size
+			if n%size != 0 {
+				expPieces++
+			}
 		}
 		// ---- Chunk
 		{
@@ -898,6 +916,61 @@ func pureFunctions(r *common.Run) {
 		c.valuesOps(o1, S2)
 		c.flush()
 	})
+	// histories: the caller keeps ONE s2 buffer and overwrites it in place between calls; every
+	// call must answer for the content the buffer has at the time of the call
+	{
+		var ev int64
+		var mu sync.Mutex
+		r.Parallel(len(S1), func(i int) {
+			o1 := S1[i]
+			if len(o1) == 0 {
+				return
+			}
+			var n int64
+			buf := make([]int, 0, 8)
+			for _, a := range S2 {
+				for _, b := range S2 {
+					if len(a) == 0 || len(a) != len(b) || eq(a, b) {
+						continue
+					}
+					buf = append(buf[:0], a...)
+					slicez.Diff(nil, clone(o1), buf)
+					slicez.Intersect(nil, clone(o1), buf)
+					copy(buf, b) // same backing array, same length, other content
+					type tc struct {
+						name string
+						got  []int
+						want []int
+					}
+					s1a, s1b := clone(o1), clone(o1)
+					cases := []tc{
+						{"Diff", slicez.Diff(nil, clone(o1), buf), diffDef(o1, b)},
+						{"Intersect", slicez.Intersect(nil, clone(o1), buf), intersectDef(o1, b)},
+						{"DiffInPlaceFirst", slicez.DiffInPlaceFirst(s1a, buf), diffDef(o1, b)},
+						{"IntersectInPlaceFirst", slicez.IntersectInPlaceFirst(s1b, buf), intersectDef(o1, b)},
+					}
+					for _, c := range cases {
+						n++
+						ok := eq(c.got, c.want)
+						if strings.HasSuffix(c.name, "InPlaceFirst") {
+							ok = sameMultiset(c.got, c.want)
+						}
+						if !ok {
+							r.Violation(c.name+"|wrong-result|s2-buffer-overwritten-in-place-between-calls",
+								fmt.Sprintf("%s(s1=%s, s2=%s) = %v, want %v; the s2 buffer held %s during the previous call", c.name, lit(o1), lit(b), c.got, c.want, lit(a)),
+								map[string]any{"s1": lit(o1), "s2_before": lit(a), "s2_now": lit(b)}, "")
+						}
+					}
+				}
+			}
+			mu.Lock()
+			ev += n
+			mu.Unlock()
+		})
+		r.Eval(ev)
+		r.Nontrivial(ev)
+		r.Section(map[string]any{"part": "set operations with a reused s2 buffer", "calls": ev})
+	}
 	// structured family: longer inputs with pairwise distinct elements for the chunk arithmetic and
 	// the index clamping (duplicates cannot hide a misplaced piece here)
 	maxN := 16
